@@ -122,7 +122,11 @@ func (c *Consensus) Header(h int64, rng *rand.Rand, pAbsent, pEvidence, pNoPropo
 			hd.Votes = append(hd.Votes, VoteInfo{v.Addr, v.Power, signed[i]})
 		}
 	}
-	for h >= 2 && rng.Float64() < pEvidence && len(hd.Evidence) < 3 {
+	// evidence comes in bursts: once a block carries one piece, a second and third (against the same or another
+	// validator) are likely
+	pe := pEvidence
+	for h >= 2 && rng.Float64() < pe && len(hd.Evidence) < 3 {
+		pe = 0.45
 		eh := h - 1 - int64(rng.Intn(3))
 		if eh < 1 {
 			eh = 1
